@@ -182,6 +182,10 @@ def m_unwrap_or(ex, st, callee, args, dest_ty):
         yield st2, args[1]
 
 
+def m_bool_not(ex, st, callee, args, dest_ty):
+    yield st, mk_bool(z3.simplify(z3.Not(deref(ex, st, args[0]).e)))
+
+
 def m_unwrap_or_else(ex, st, callee, args, dest_ty):
     """Option::unwrap_or_else(f) / Result::unwrap_or_else(|e| ..)"""
     v = _opt_like(args[0], callee)
@@ -972,6 +976,7 @@ BASE_MODELS = [
     (R(r" as Try>::branch$"), m_try_branch),
     (R(r" as FromResidual<.*>>::from_residual$"), m_from_residual),
     (R(r"^(Option|Result)::<.*>::(unwrap|expect|unwrap_err)$"), m_unwrap),
+    (R(r"^<&?bool as (std::ops::)?Not>::not$"), m_bool_not),
     (R(r"^(Option|Result)::<.*>::unwrap_or$"), m_unwrap_or),
     (R(r"^(Option|Result)::<.*>::unwrap_or_else::<.*>$"), m_unwrap_or_else),
     (R(r"^Option::<.*>::zip::<.*>$"), m_opt_zip),
